@@ -73,332 +73,337 @@ def run(ctx: Context) -> None:
     ctx.assume("xarray creates one accessor/state object per Dataset object and none for copies (register_dataset_accessor caching)")
 
     # ------------------------------------------------------------------ R11.1
-    impls = p.implementations(base, 'check_dataset')
-    ctx.require(len(impls) >= 5, f"expected >= 5 check_dataset implementations, found {len(impls)}")
-    table = {}
-    for fi in impls:
-        rv = return_values(ctx, fi, spec)
-        unknown = [v for _, v in rv if isinstance(v, tuple)]
-        ctx.check('R11.1', not unknown, "check_dataset returns a Specificity constant or None on every exit", fi, fi.node,
-                  construct=f"{fi.cls.short}.check_dataset returns {[v for _, v in rv]}")
-        table[fi.cls.qualname] = [v for _, v in rv if isinstance(v, int)]
-    low = min(spec.values())
-    for q in GENERIC:
-        q = p.canonical(q)
-        ctx.check('R11.1', table.get(q) and set(table[q]) == {low}, "generic CF grid conventions match with the lowest specificity", p.func(q + '.check_dataset'),
-                  p.func(q + '.check_dataset').node, construct=f"{q.rsplit('.', 1)[-1]}: {table.get(q)}")
-    generic_max = max((max(table[p.canonical(q)]) for q in GENERIC if table.get(p.canonical(q))), default=low)
-    for fi in impls:
-        q = fi.cls.qualname
-        if q in [p.canonical(g) for g in GENERIC]:
-            continue
-        vals = table[q]
-        ctx.check('R11.1', bool(vals) and min(vals) > generic_max, "a specific convention outranks the generic CF grids", fi, fi.node,
-                  construct=f"{fi.cls.short}: {vals} vs generic {generic_max}")
-        # subclass vs ancestor with its own test
-        for anc in p.mro(fi.cls)[1:]:
-            if anc.qualname in table and table[anc.qualname] and anc.qualname != q:
-                ctx.check('R11.1', bool(vals) and min(vals) > max(table[anc.qualname]),
-                          "a subclass outranks the ancestor convention it also matches", fi, fi.node,
-                          construct=f"{fi.cls.short} {vals} vs {anc.short} {table[anc.qualname]}")
-    # distinguishing tests dominate the non-None return
-    def tests_text(fi):
-        rv = return_values(ctx, fi, spec)
-        out = []
-        for r, v in rv:
-            if isinstance(v, int):
-                out.append((r, [(pol, norm_text(t)) for pol, t in early_none_tests(ctx, fi, r)]))
-        return out
+    with ctx.section('R11.1'):
+        impls = p.implementations(base, 'check_dataset')
+        ctx.require(len(impls) >= 5, f"expected >= 5 check_dataset implementations, found {len(impls)}")
+        table = {}
+        for fi in impls:
+            rv = return_values(ctx, fi, spec)
+            unknown = [v for _, v in rv if isinstance(v, tuple)]
+            ctx.check('R11.1', not unknown, "check_dataset returns a Specificity constant or None on every exit", fi, fi.node,
+                      construct=f"{fi.cls.short}.check_dataset returns {[v for _, v in rv]}")
+            table[fi.cls.qualname] = [v for _, v in rv if isinstance(v, int)]
+        low = min(spec.values())
+        for q in GENERIC:
+            q = p.canonical(q)
+            ctx.check('R11.1', table.get(q) and set(table[q]) == {low}, "generic CF grid conventions match with the lowest specificity", p.func(q + '.check_dataset'),
+                      p.func(q + '.check_dataset').node, construct=f"{q.rsplit('.', 1)[-1]}: {table.get(q)}")
+        generic_max = max((max(table[p.canonical(q)]) for q in GENERIC if table.get(p.canonical(q))), default=low)
+        for fi in impls:
+            q = fi.cls.qualname
+            if q in [p.canonical(g) for g in GENERIC]:
+                continue
+            vals = table[q]
+            ctx.check('R11.1', bool(vals) and min(vals) > generic_max, "a specific convention outranks the generic CF grids", fi, fi.node,
+                      construct=f"{fi.cls.short}: {vals} vs generic {generic_max}")
+            # subclass vs ancestor with its own test
+            for anc in p.mro(fi.cls)[1:]:
+                if anc.qualname in table and table[anc.qualname] and anc.qualname != q:
+                    ctx.check('R11.1', bool(vals) and min(vals) > max(table[anc.qualname]),
+                              "a subclass outranks the ancestor convention it also matches", fi, fi.node,
+                              construct=f"{fi.cls.short} {vals} vs {anc.short} {table[anc.qualname]}")
+        # distinguishing tests dominate the non-None return
+        def tests_text(fi):
+            rv = return_values(ctx, fi, spec)
+            out = []
+            for r, v in rv:
+                if isinstance(v, int):
+                    out.append((r, [(pol, norm_text(t)) for pol, t in early_none_tests(ctx, fi, r)]))
+            return out
 
-    ug = ctx.func('emsarray.conventions.ugrid.UGrid.check_dataset')
-    for r, tests in tests_text(ug):
-        marker = any(pol == 'unless' and re.search(r"'[^']*ugrid[^']*'\s+not in", t, re.I) or
-                     pol == 'if' and re.search(r"'[^']*ugrid[^']*'\s+in", t, re.I) for pol, t in tests)
-        dim2 = any((pol == 'unless' and re.search(r"topology_dimension'?\)?\s*!=\s*2", t)) or
-                   (pol == 'if' and re.search(r"topology_dimension'?\)?\s*==\s*2", t)) for pol, t in tests)
-        ctx.check('R11.1', bool(marker), "UGRID matches only when the Conventions attribute carries the UGRID marker", ug, r,
-                  construct=f"tests before `{norm_text(r)}`: {[t for _, t in tests]}")
-        ctx.check('R11.1', bool(dim2), "UGRID matches only a mesh variable with topology_dimension == 2", ug, r,
-                  construct=f"topology_dimension test before `{norm_text(r)}`")
-        flow = ctx.flow(ug)
-        # the marker is read from the dataset's Conventions attribute
-        src_ok = any(isinstance(n, ast.Call) and isinstance(n.func, ast.Attribute) and n.func.attr == 'get' and n.args
-                     and const_value(n.args[0], None) == 'Conventions' and norm_text(n.func.value) == f"{ug.params[1]}.attrs"
-                     for n in ast.walk(ug.node))
-        ctx.check('R11.1', src_ok, "the marker is looked for in dataset.attrs['Conventions']", ug, ug.node, construct="dataset.attrs.get('Conventions', ...)")
-    # a missing mesh variable means no match
-    handlers = [h for n in walk_no_nested(ug.node) if isinstance(n, ast.Try) for h in n.handlers]
-    ctx.check('R11.1', any(all(isinstance(s, ast.Return) and is_none(s.value) for s in h.body) for h in handlers),
-              "no mesh variable means no match (not an exception)", ug, ug.node, construct='except ValueError: return None')
-    ss = ctx.func('emsarray.conventions.shoc.ShocSimple.check_dataset')
-    for r, tests in tests_text(ss):
-        t1 = any(pol == 'unless' and "'ems_version' not in" in t and '.attrs' in t for pol, t in tests)
-        t2 = any(pol == 'unless' and 'issuperset(cls._dimensions)' in t and t.startswith('not ') for pol, t in tests)
-        ctx.check('R11.1', t1 and t2, "SHOC simple matches only with the ems_version attribute and its (j, i) dimensions", ss, r,
-                  construct=f"tests before `{norm_text(r)}`: {[t for _, t in tests]}")
-    ak = ctx.func('emsarray.conventions.arakawa_c.ArakawaC.check_dataset')
-    for r, tests in tests_text(ak):
-        t1 = any(pol == 'if' and t.startswith('all(') and 'in dataset.variables' in t and 'coordinate_names' in t for pol, t in tests)
-        t0 = any(pol == 'unless' and "not hasattr(cls, 'coordinate_names')" in t for pol, t in tests)
-        ctx.check('R11.1', t1 and t0, "Arakawa C conventions match only when all their coordinate variables are present", ak, r,
-                  construct=f"tests before `{norm_text(r)}`: {[t for _, t in tests]}")
-    for q, n in (('emsarray.conventions.grid.CFGrid1D', 1), ('emsarray.conventions.grid.CFGrid2D', 2)):
-        fi = ctx.func(q + '.check_dataset')
-        for r, tests in tests_text(fi):
-            want = f"len(latitude.dims) != {n} or len(longitude.dims) != {n}"
-            ok = any(pol == 'unless' and t == want for pol, t in tests)
-            ctx.check('R11.1', ok, f"CF {n}-D grid matches only {n}-dimensional latitude and longitude", fi, r,
+        ug = ctx.func('emsarray.conventions.ugrid.UGrid.check_dataset')
+        for r, tests in tests_text(ug):
+            marker = any(pol == 'unless' and re.search(r"'[^']*ugrid[^']*'\s+not in", t, re.I) or
+                         pol == 'if' and re.search(r"'[^']*ugrid[^']*'\s+in", t, re.I) for pol, t in tests)
+            dim2 = any((pol == 'unless' and re.search(r"topology_dimension'?\)?\s*!=\s*2", t)) or
+                       (pol == 'if' and re.search(r"topology_dimension'?\)?\s*==\s*2", t)) for pol, t in tests)
+            ctx.check('R11.1', bool(marker), "UGRID matches only when the Conventions attribute carries the UGRID marker", ug, r,
                       construct=f"tests before `{norm_text(r)}`: {[t for _, t in tests]}")
+            ctx.check('R11.1', bool(dim2), "UGRID matches only a mesh variable with topology_dimension == 2", ug, r,
+                      construct=f"topology_dimension test before `{norm_text(r)}`")
+            flow = ctx.flow(ug)
+            # the marker is read from the dataset's Conventions attribute
+            src_ok = any(isinstance(n, ast.Call) and isinstance(n.func, ast.Attribute) and n.func.attr == 'get' and n.args
+                         and const_value(n.args[0], None) == 'Conventions' and norm_text(n.func.value) == f"{ug.params[1]}.attrs"
+                         for n in ast.walk(ug.node))
+            ctx.check('R11.1', src_ok, "the marker is looked for in dataset.attrs['Conventions']", ug, ug.node, construct="dataset.attrs.get('Conventions', ...)")
+        # a missing mesh variable means no match
+        handlers = [h for n in walk_no_nested(ug.node) if isinstance(n, ast.Try) for h in n.handlers]
+        ctx.check('R11.1', any(all(isinstance(s, ast.Return) and is_none(s.value) for s in h.body) for h in handlers),
+                  "no mesh variable means no match (not an exception)", ug, ug.node, construct='except ValueError: return None')
+        ss = ctx.func('emsarray.conventions.shoc.ShocSimple.check_dataset')
+        for r, tests in tests_text(ss):
+            t1 = any(pol == 'unless' and "'ems_version' not in" in t and '.attrs' in t for pol, t in tests)
+            t2 = any(pol == 'unless' and 'issuperset(cls._dimensions)' in t and t.startswith('not ') for pol, t in tests)
+            ctx.check('R11.1', t1 and t2, "SHOC simple matches only with the ems_version attribute and its (j, i) dimensions", ss, r,
+                      construct=f"tests before `{norm_text(r)}`: {[t for _, t in tests]}")
+        ak = ctx.func('emsarray.conventions.arakawa_c.ArakawaC.check_dataset')
+        for r, tests in tests_text(ak):
+            t1 = any(pol == 'if' and t.startswith('all(') and 'in dataset.variables' in t and 'coordinate_names' in t for pol, t in tests)
+            t0 = any(pol == 'unless' and "not hasattr(cls, 'coordinate_names')" in t for pol, t in tests)
+            ctx.check('R11.1', t1 and t0, "Arakawa C conventions match only when all their coordinate variables are present", ak, r,
+                      construct=f"tests before `{norm_text(r)}`: {[t for _, t in tests]}")
+        for q, n in (('emsarray.conventions.grid.CFGrid1D', 1), ('emsarray.conventions.grid.CFGrid2D', 2)):
+            fi = ctx.func(q + '.check_dataset')
+            for r, tests in tests_text(fi):
+                want = f"len(latitude.dims) != {n} or len(longitude.dims) != {n}"
+                ok = any(pol == 'unless' and t == want for pol, t in tests)
+                ctx.check('R11.1', ok, f"CF {n}-D grid matches only {n}-dimensional latitude and longitude", fi, r,
+                          construct=f"tests before `{norm_text(r)}`: {[t for _, t in tests]}")
 
     # ------------------------------------------------------------------ R11.2
-    mc = ctx.func(f"{REG}.ConventionRegistry.match_conventions")
-    flow = ctx.flow(mc)
-    loops = [n for n in walk_no_nested(mc.node) if isinstance(n, ast.For)]
-    ok_loop = len(loops) == 1 and flow.canon(loops[0].iter) == ('attr', ('param', 'self'), 'conventions')
-    ctx.check('R11.2', ok_loop, "conventions are tried in the order of self.conventions", mc, loops[0] if loops else mc.node)
-    appends = [c for c in method_calls(mc, 'append')]
-    ok_app = False
-    if len(appends) == 1 and ok_loop:
-        a = appends[0]
-        g = enclosing_ifs(mc, a)
-        item = a.args[0] if a.args else None
-        cd = [c for c in method_calls(mc, 'check_dataset')]
-        ok_app = (len(cd) == 1 and isinstance(item, ast.Tuple) and len(item.elts) == 2
-                  and isinstance(item.elts[0], ast.Name) and isinstance(loops[0].target, ast.Name) and item.elts[0].id == loops[0].target.id
-                  and flow.resolve(item.elts[1]) is cd[0]
-                  and isinstance(cd[0].func.value, ast.Name) and cd[0].func.value.id == loops[0].target.id
-                  and len(cd[0].args) == 1 and flow.canon(cd[0].args[0]) == ('param', mc.params[1])
-                  and any(inb and isinstance(st.test, ast.Compare) and isinstance(st.test.ops[0], ast.IsNot) and is_none(st.test.comparators[0])
-                          and flow.resolve(st.test.left) is cd[0] for st, inb in g))
-    ctx.check('R11.2', ok_app, "(convention, check_dataset(dataset)) is recorded exactly when the result is not None", mc,
-              appends[0] if appends else mc.node)
-    rets = mc.returns()
-    ok_sort = False
-    detail = ''
-    if len(rets) == 1:
-        v = flow.resolve(rets[0].value)
-        detail = norm_text(v)
-        if isinstance(v, ast.Call) and dotted(v.func) == 'sorted' and len(v.args) == 1 and appends \
-                and flow.canon(v.args[0]) == flow.canon(appends[0].func.value):
-            key = kwarg(v, 'key')
-            rev = kwarg(v, 'reverse')
-            key_idx = None
-            negated = False
-            if isinstance(key, ast.Lambda) and len(key.args.args) == 1:
-                body = key.body
-                if isinstance(body, ast.UnaryOp) and isinstance(body.op, ast.USub):
-                    negated = True
-                    body = body.operand
-                if isinstance(body, ast.Subscript) and isinstance(body.value, ast.Name) and body.value.id == key.args.args[0].arg:
-                    key_idx = const_value(body.slice, None)
-            rev_true = rev is not None and const_value(rev, None) is True
-            ok_sort = key_idx == 1 and (rev_true != negated)
-    ctx.check('R11.2', ok_sort, "matches are returned by a stable sort on the specificity component, descending", mc,
-              rets[0] if rets else mc.node, construct=f"return {detail}")
-    gc = ctx.func(f"{REG}.ConventionRegistry.guess_convention")
-    flow = ctx.flow(gc)
-    mcalls = [c for c in method_calls(gc, 'match_conventions')]
-    ok_first = False
-    ok_none = False
-    for r in gc.returns():
-        v = flow.resolve(r.value) if r.value is not None else None
-        if is_none(v):
-            ok_none = True
-        elif isinstance(v, ast.Subscript) and const_value(v.slice, None) == 0 and isinstance(v.value, ast.Subscript) \
-                and const_value(v.value.slice, None) == 0 and mcalls and flow.resolve(v.value.value) is mcalls[0]:
-            g = enclosing_ifs(gc, r)
-            ok_first = any(inb and flow.resolve(st.test) is mcalls[0] for st, inb in g) or \
-                any(inb and norm_text(st.test) in ('matches', 'len(matches) > 0', 'len(matches)') for st, inb in g)
-    ctx.check('R11.2', ok_first and len(mcalls) == 1 and flow.canon(mcalls[0].args[0]) == ('param', gc.params[1]),
-              "the first (most specific, earliest registered) match of this dataset is chosen", gc, gc.node, construct='return matches[0][0] when matches')
-    ctx.check('R11.2', ok_none, "no match yields None", gc, gc.node, construct='return None when no matches')
-    cv = ctx.func(f"{REG}.ConventionRegistry.conventions")
-    flow = ctx.flow(cv)
-    loops = [n for n in walk_no_nested(cv.node) if isinstance(n, ast.For)]
-    ok_chain = False
-    if len(loops) == 1:
-        it = flow.resolve(loops[0].iter)
-        if isinstance(it, ast.Call) and callee(ctx, cv, it) == 'itertools.chain' and len(it.args) == 2:
-            ok_chain = (flow.canon(it.args[0]) == ('attr', ('param', 'self'), 'registered_conventions')
-                        and flow.canon(it.args[1]) == ('attr', ('param', 'self'), 'entry_point_conventions'))
-    ctx.check('R11.2', ok_chain, "manually registered conventions come before entry point conventions", cv, loops[0] if loops else cv.node)
-    appends = [c for c in method_calls(cv, 'append')]
-    ok_dd = False
-    if len(appends) == 1 and loops:
-        g = enclosing_ifs(cv, appends[0])
-        ok_dd = (any(inb and isinstance(st.test, ast.Compare) and isinstance(st.test.ops[0], ast.NotIn) for st, inb in g)
-                 and isinstance(appends[0].args[0], ast.Name) and isinstance(loops[0].target, ast.Name)
-                 and appends[0].args[0].id == loops[0].target.id
-                 and all(flow.canon(r.value) == flow.canon(appends[0].func.value) for r in cv.returns()))
-    ctx.check('R11.2', ok_dd, "duplicates are dropped keeping the first occurrence; the list is returned in that order", cv,
-              appends[0] if appends else cv.node)
-    ac = ctx.func(f"{REG}.ConventionRegistry.add_convention")
-    flow = ctx.flow(ac)
-    dels = [n for n in ast.walk(ac.node) if isinstance(n, ast.Delete) and any(norm_text(t) == 'self.conventions' for t in n.targets)]
-    apps = [c for c in method_calls(ac, 'append') if flow.canon(c.func.value) == ('attr', ('param', 'self'), 'registered_conventions')
-            and c.args and flow.canon(c.args[0]) == ('param', ac.params[1])]
-    ctx.check('R11.2', len(dels) == 1, "registering a convention invalidates the cached convention list", ac, dels[0] if dels else ac.node,
-              construct='del self.conventions')
-    ctx.check('R11.2', len(apps) == 1, "the convention is appended to the registered list", ac, apps[0] if apps else ac.node,
-              construct='self.registered_conventions.append(convention)')
-    gd = ctx.func(f"{REG}.get_dataset_convention")
-    flow = ctx.flow(gd)
-    ok = False
-    for r in gd.returns():
-        v = flow.resolve(r.value)
-        ok = (isinstance(v, ast.Call) and norm_text(v.func) == 'registry.guess_convention' and len(v.args) == 1
-              and flow.canon(v.args[0]) == ('param', gd.params[0]))
-    reg_assign = p.module(REG).assigns.get('registry')
-    ok = ok and isinstance(reg_assign, ast.Call) and dotted(reg_assign.func) == 'ConventionRegistry'
-    ctx.check('R11.2', ok, "get_dataset_convention asks the one module level registry", gd, gd.node)
+    with ctx.section('R11.2'):
+        mc = ctx.func(f"{REG}.ConventionRegistry.match_conventions")
+        flow = ctx.flow(mc)
+        loops = [n for n in walk_no_nested(mc.node) if isinstance(n, ast.For)]
+        ok_loop = len(loops) == 1 and flow.canon(loops[0].iter) == ('attr', ('param', 'self'), 'conventions')
+        ctx.check('R11.2', ok_loop, "conventions are tried in the order of self.conventions", mc, loops[0] if loops else mc.node)
+        appends = [c for c in method_calls(mc, 'append')]
+        ok_app = False
+        if len(appends) == 1 and ok_loop:
+            a = appends[0]
+            g = enclosing_ifs(mc, a)
+            item = a.args[0] if a.args else None
+            cd = [c for c in method_calls(mc, 'check_dataset')]
+            ok_app = (len(cd) == 1 and isinstance(item, ast.Tuple) and len(item.elts) == 2
+                      and isinstance(item.elts[0], ast.Name) and isinstance(loops[0].target, ast.Name) and item.elts[0].id == loops[0].target.id
+                      and flow.resolve(item.elts[1]) is cd[0]
+                      and isinstance(cd[0].func.value, ast.Name) and cd[0].func.value.id == loops[0].target.id
+                      and len(cd[0].args) == 1 and flow.canon(cd[0].args[0]) == ('param', mc.params[1])
+                      and any(inb and isinstance(st.test, ast.Compare) and isinstance(st.test.ops[0], ast.IsNot) and is_none(st.test.comparators[0])
+                              and flow.resolve(st.test.left) is cd[0] for st, inb in g))
+        ctx.check('R11.2', ok_app, "(convention, check_dataset(dataset)) is recorded exactly when the result is not None", mc,
+                  appends[0] if appends else mc.node)
+        rets = mc.returns()
+        ok_sort = False
+        detail = ''
+        if len(rets) == 1:
+            v = flow.resolve(rets[0].value)
+            detail = norm_text(v)
+            if isinstance(v, ast.Call) and dotted(v.func) == 'sorted' and len(v.args) == 1 and appends \
+                    and flow.canon(v.args[0]) == flow.canon(appends[0].func.value):
+                key = kwarg(v, 'key')
+                rev = kwarg(v, 'reverse')
+                key_idx = None
+                negated = False
+                if isinstance(key, ast.Lambda) and len(key.args.args) == 1:
+                    body = key.body
+                    if isinstance(body, ast.UnaryOp) and isinstance(body.op, ast.USub):
+                        negated = True
+                        body = body.operand
+                    if isinstance(body, ast.Subscript) and isinstance(body.value, ast.Name) and body.value.id == key.args.args[0].arg:
+                        key_idx = const_value(body.slice, None)
+                rev_true = rev is not None and const_value(rev, None) is True
+                ok_sort = key_idx == 1 and (rev_true != negated)
+        ctx.check('R11.2', ok_sort, "matches are returned by a stable sort on the specificity component, descending", mc,
+                  rets[0] if rets else mc.node, construct=f"return {detail}")
+        gc = ctx.func(f"{REG}.ConventionRegistry.guess_convention")
+        flow = ctx.flow(gc)
+        mcalls = [c for c in method_calls(gc, 'match_conventions')]
+        ok_first = False
+        ok_none = False
+        for r in gc.returns():
+            v = flow.resolve(r.value) if r.value is not None else None
+            if is_none(v):
+                ok_none = True
+            elif isinstance(v, ast.Subscript) and const_value(v.slice, None) == 0 and isinstance(v.value, ast.Subscript) \
+                    and const_value(v.value.slice, None) == 0 and mcalls and flow.resolve(v.value.value) is mcalls[0]:
+                g = enclosing_ifs(gc, r)
+                ok_first = any(inb and flow.resolve(st.test) is mcalls[0] for st, inb in g) or \
+                    any(inb and norm_text(st.test) in ('matches', 'len(matches) > 0', 'len(matches)') for st, inb in g)
+        ctx.check('R11.2', ok_first and len(mcalls) == 1 and flow.canon(mcalls[0].args[0]) == ('param', gc.params[1]),
+                  "the first (most specific, earliest registered) match of this dataset is chosen", gc, gc.node, construct='return matches[0][0] when matches')
+        ctx.check('R11.2', ok_none, "no match yields None", gc, gc.node, construct='return None when no matches')
+        cv = ctx.func(f"{REG}.ConventionRegistry.conventions")
+        flow = ctx.flow(cv)
+        loops = [n for n in walk_no_nested(cv.node) if isinstance(n, ast.For)]
+        ok_chain = False
+        if len(loops) == 1:
+            it = flow.resolve(loops[0].iter)
+            if isinstance(it, ast.Call) and callee(ctx, cv, it) == 'itertools.chain' and len(it.args) == 2:
+                ok_chain = (flow.canon(it.args[0]) == ('attr', ('param', 'self'), 'registered_conventions')
+                            and flow.canon(it.args[1]) == ('attr', ('param', 'self'), 'entry_point_conventions'))
+        ctx.check('R11.2', ok_chain, "manually registered conventions come before entry point conventions", cv, loops[0] if loops else cv.node)
+        appends = [c for c in method_calls(cv, 'append')]
+        ok_dd = False
+        if len(appends) == 1 and loops:
+            g = enclosing_ifs(cv, appends[0])
+            ok_dd = (any(inb and isinstance(st.test, ast.Compare) and isinstance(st.test.ops[0], ast.NotIn) for st, inb in g)
+                     and isinstance(appends[0].args[0], ast.Name) and isinstance(loops[0].target, ast.Name)
+                     and appends[0].args[0].id == loops[0].target.id
+                     and all(flow.canon(r.value) == flow.canon(appends[0].func.value) for r in cv.returns()))
+        ctx.check('R11.2', ok_dd, "duplicates are dropped keeping the first occurrence; the list is returned in that order", cv,
+                  appends[0] if appends else cv.node)
+        ac = ctx.func(f"{REG}.ConventionRegistry.add_convention")
+        flow = ctx.flow(ac)
+        dels = [n for n in ast.walk(ac.node) if isinstance(n, ast.Delete) and any(norm_text(t) == 'self.conventions' for t in n.targets)]
+        apps = [c for c in method_calls(ac, 'append') if flow.canon(c.func.value) == ('attr', ('param', 'self'), 'registered_conventions')
+                and c.args and flow.canon(c.args[0]) == ('param', ac.params[1])]
+        ctx.check('R11.2', len(dels) == 1, "registering a convention invalidates the cached convention list", ac, dels[0] if dels else ac.node,
+                  construct='del self.conventions')
+        ctx.check('R11.2', len(apps) == 1, "the convention is appended to the registered list", ac, apps[0] if apps else ac.node,
+                  construct='self.registered_conventions.append(convention)')
+        gd = ctx.func(f"{REG}.get_dataset_convention")
+        flow = ctx.flow(gd)
+        ok = False
+        for r in gd.returns():
+            v = flow.resolve(r.value)
+            ok = (isinstance(v, ast.Call) and norm_text(v.func) == 'registry.guess_convention' and len(v.args) == 1
+                  and flow.canon(v.args[0]) == ('param', gd.params[0]))
+        reg_assign = p.module(REG).assigns.get('registry')
+        ok = ok and isinstance(reg_assign, ast.Call) and dotted(reg_assign.func) == 'ConventionRegistry'
+        ctx.check('R11.2', ok, "get_dataset_convention asks the one module level registry", gd, gd.node)
 
     # ------------------------------------------------------------------ R11.3 purity of detection
-    n_funcs = 0
-    for fi in impls:
-        concrete = [c for c in p.subclasses(fi.cls) if p.resolve_method(c, 'check_dataset') is fi]
-        for cc in concrete[:4]:
-            closure = cg.closure([(fi, cc)], stop=lambda f: not f.qualname.startswith('emsarray.'))
-            bad = []
-            for g, gcls in closure:
-                n_funcs += 1
-                gflow = ctx.flow(g)
-                for node, obj, how in writes_in(g, gflow):
-                    roots = roots_of(gflow, obj)
-                    # writes to the receiver's own fresh object (`self.x = ...` in __init__ of a helper) are fine
-                    rootname = norm_text(obj).split('.')[0].split('[')[0]
-                    if rootname == 'self' and g.name in ('__init__', '__post_init__'):
-                        continue
-                    params_hit = [r for r in roots if r.startswith('param:') and r != 'param:self']
-                    if rootname in ('cls',) or any(r.startswith('global:') for r in roots) or params_hit or rootname == 'self':
-                        if roots == {'fresh'}:
+    with ctx.section('R11.3 purity of detection'):
+        n_funcs = 0
+        for fi in impls:
+            concrete = [c for c in p.subclasses(fi.cls) if p.resolve_method(c, 'check_dataset') is fi]
+            for cc in concrete[:4]:
+                closure = cg.closure([(fi, cc)], stop=lambda f: not f.qualname.startswith('emsarray.'))
+                bad = []
+                for g, gcls in closure:
+                    n_funcs += 1
+                    gflow = ctx.flow(g)
+                    for node, obj, how in writes_in(g, gflow):
+                        roots = roots_of(gflow, obj)
+                        # writes to the receiver's own fresh object (`self.x = ...` in __init__ of a helper) are fine
+                        rootname = norm_text(obj).split('.')[0].split('[')[0]
+                        if rootname == 'self' and g.name in ('__init__', '__post_init__'):
                             continue
-                        bad.append(f"{g.short}: {how}")
-                for node in ast.walk(g.node):
-                    if isinstance(node, (ast.Global, ast.Nonlocal)):
-                        bad.append(f"{g.short}: {norm_text(node)}")
-                for node, q, why in noncanonical_sources(g, lambda n, g=g: p.qualify(n, g)):
-                    bad.append(f"{g.short}: {q} ({why})")
-            ctx.check('R11.3', not bad, "everything reachable from check_dataset is effect free and deterministic", fi, fi.node,
-                      construct=f"{cc.short}.check_dataset closure ({len(closure)} functions): " + ('; '.join(sorted(set(bad))[:4]) if bad else 'no writes, no non-deterministic reads'))
-    ctx.notes.append(f"R11.3 analysed {n_funcs} function instances in check_dataset closures")
-    # scans take the first match in dataset order
-    for q in ('emsarray.conventions.grid.CFGridTopology.latitude_name', 'emsarray.conventions.grid.CFGridTopology.longitude_name',
-              'emsarray.conventions.ugrid.Mesh2DTopology.mesh_variable'):
-        fi = ctx.func(q)
-        nx = [c for c in calls_in(fi) if dotted(c.func) == 'next' and c.args and isinstance(c.args[0], ast.GeneratorExp)]
-        ok = False
-        for c in nx:
-            it = norm_text(c.args[0].generators[0].iter)
-            ok = ok or it in ('self.dataset.variables.items()', 'self.dataset.data_vars.values()', 'self.dataset.variables.values()',
-                              'self.dataset.data_vars.items()')
-        ctx.check('R11.3', ok, "coordinate / mesh discovery takes the first match in dataset variable order", fi, nx[0] if nx else fi.node,
-                  construct=f"next(... for ... in {norm_text(nx[0].args[0].generators[0].iter) if nx else '?'})")
+                        params_hit = [r for r in roots if r.startswith('param:') and r != 'param:self']
+                        if rootname in ('cls',) or any(r.startswith('global:') for r in roots) or params_hit or rootname == 'self':
+                            if roots == {'fresh'}:
+                                continue
+                            bad.append(f"{g.short}: {how}")
+                    for node in ast.walk(g.node):
+                        if isinstance(node, (ast.Global, ast.Nonlocal)):
+                            bad.append(f"{g.short}: {norm_text(node)}")
+                    for node, q, why in noncanonical_sources(g, lambda n, g=g: p.qualify(n, g)):
+                        bad.append(f"{g.short}: {q} ({why})")
+                ctx.check('R11.3', not bad, "everything reachable from check_dataset is effect free and deterministic", fi, fi.node,
+                          construct=f"{cc.short}.check_dataset closure ({len(closure)} functions): " + ('; '.join(sorted(set(bad))[:4]) if bad else 'no writes, no non-deterministic reads'))
+        ctx.notes.append(f"R11.3 analysed {n_funcs} function instances in check_dataset closures")
+        # scans take the first match in dataset order
+        for q in ('emsarray.conventions.grid.CFGridTopology.latitude_name', 'emsarray.conventions.grid.CFGridTopology.longitude_name',
+                  'emsarray.conventions.ugrid.Mesh2DTopology.mesh_variable'):
+            fi = ctx.func(q)
+            nx = [c for c in calls_in(fi) if dotted(c.func) == 'next' and c.args and isinstance(c.args[0], ast.GeneratorExp)]
+            ok = False
+            for c in nx:
+                it = norm_text(c.args[0].generators[0].iter)
+                ok = ok or it in ('self.dataset.variables.items()', 'self.dataset.data_vars.values()', 'self.dataset.variables.values()',
+                                  'self.dataset.data_vars.items()')
+            ctx.check('R11.3', ok, "coordinate / mesh discovery takes the first match in dataset variable order", fi, nx[0] if nx else fi.node,
+                      construct=f"next(... for ... in {norm_text(nx[0].args[0].generators[0].iter) if nx else '?'})")
 
     # ------------------------------------------------------------------ R11.4 typestate
-    state = p.cls(STATE)
-    writers = []
-    for fi in p.functions.values():
-        for node in ast.walk(fi.node):
-            if isinstance(node, ast.Attribute) and isinstance(node.ctx, (ast.Store, ast.Del)) and node.attr == 'convention':
-                if fi.parent is not None and (fi.parent.qualname, id(node)) in {(w[0].qualname, id(w[1])) for w in writers}:
-                    continue
-                # receivers known to be some other class (Transect.convention) are not the binding state
-                rt = ctx.types(fi).type_of(node.value)
-                if rt is not None and rt in p.classes and not p.is_subclass(p.classes[rt], STATE):
-                    continue
-                writers.append((fi, node))
-            if isinstance(node, ast.Call) and dotted(node.func) in ('setattr', 'object.__setattr__') and len(node.args) >= 2 \
-                    and const_value(node.args[1], None) == 'convention':
-                writers.append((fi, node))
-    uniq = {(f.qualname.split('.<locals>')[0], getattr(n, 'lineno', 0)) for f, n in writers}
-    ok_w = uniq and all(q == f"{STATE}.bind_convention" for q, _ in uniq) and len(uniq) == 1
-    ctx.check('R11.4', bool(ok_w), "the only store to <state>.convention is in State.bind_convention", writers[0][0] if writers else None,
-              writers[0][1] if writers else None, construct=f"writers of .convention: {sorted(q for q, _ in uniq)}")
-    bc = ctx.func(f"{STATE}.bind_convention")
-    flow = ctx.flow(bc)
-    stores = [n for n in walk_no_nested(bc.node) if isinstance(n, ast.Assign) and norm_text(n.targets[0]) == 'self.convention']
-    ctx.check('R11.4', len(stores) == 1 and flow.canon(stores[0].value) == ('param', bc.params[1]), "bind_convention stores the convention it is given", bc,
-              stores[0] if stores else bc.node)
-    ib = ctx.func(f"{STATE}.is_bound")
-    ok = all(norm_text(r.value) == 'self.convention is not None' for r in ib.returns()) and ib.returns()
-    ctx.check('R11.4', bool(ok), "is_bound is `self.convention is not None`", ib, ib.node)
-    default = state.attrs.get('convention')
-    ctx.check('R11.4', default is not None and is_none(default), "a new State starts unbound", bc, state.node, construct=f"State.convention default = {norm_text(default) if default is not None else 'missing'}")
-    callers = [(f, s) for f, s in cg.callers_of(f"{STATE}.bind_convention")]
-    also = [(f, n) for f in p.functions.values() for n in ast.walk(f.node)
-            if isinstance(n, ast.Call) and isinstance(n.func, ast.Attribute) and n.func.attr == 'bind_convention']
-    names = sorted({f.qualname for f, _ in also})
-    ctx.check('R11.4', names == [f"{BASE}.bind"], "bind_convention is called only from Convention.bind", also[0][0] if also else None,
-              also[0][1] if also else None, construct=f"callers of bind_convention: {names}")
-    bind = ctx.func(f"{BASE}.bind")
-    flow = ctx.flow(bind)
-    cfg = ctx.cfg(bind)
-    from ..cfg import stmt_of
-    bcalls = [c for c in method_calls(bind, 'bind_convention')]
-    ctx.need('R11.4', len(bcalls) == 1, "Convention.bind calls bind_convention once", bind)
-    bcall = bcalls[0]
-    st_call = stmt_of(bind, bcall)
-    guard_ok = False
-    for n in walk_no_nested(bind.node):
-        if isinstance(n, ast.If) and isinstance(n.test, ast.Call) and isinstance(n.test.func, ast.Attribute) \
-                and n.test.func.attr == 'is_bound' and flow.canon(n.test.func.value) == flow.canon(bcall.func.value) \
-                and n.body and all(isinstance(s, ast.Raise) for s in n.body[-1:]) and not n.orelse \
-                and cfg.dominates(n, st_call):
-            guard_ok = True
-    ctx.check('R11.4', guard_ok, "the bind is dominated by `if state.is_bound(): raise`", bind, bcall)
-    ctx.check('R11.4', len(bcall.args) == 1 and flow.canon(bcall.args[0]) == ('param', 'self'), "the convention bound is this instance", bind, bcall)
-    sv = flow.resolve(bcall.func.value)
-    ok_state = (isinstance(sv, ast.Call) and norm_text(sv.func) == 'State.get' and len(sv.args) == 1
-                and flow.canon(sv.args[0]) == ('attr', ('param', 'self'), 'dataset'))
-    ctx.check('R11.4', ok_state, "the state bound is the one of this convention's own dataset", bind, bcall, construct=f"state = {norm_text(sv)}")
-    sg = ctx.func(f"{STATE}.get")
-    ok = False
-    for r in sg.returns():
-        v = ctx.flow(sg).resolve(r.value)
-        while isinstance(v, ast.Call) and (dotted(v.func) or '').endswith('cast'):
-            v = v.args[1]
-        ok = (isinstance(v, ast.Call) and dotted(v.func) == 'getattr' and len(v.args) == 2
-              and ctx.flow(sg).canon(v.args[0]) == ('param', sg.params[1]) and norm_text(v.args[1]) in ('State.accessor_name', 'cls.accessor_name'))
-    ctx.check('R11.4', ok, "State.get returns the per-dataset accessor object", sg, sg.node)
-    acc = ctx.func('emsarray.accessors.ems_accessor')
-    flow = ctx.flow(acc)
-    rets = acc.returns()
-    ok_bound = False
-    ok_new = False
-    for r in rets:
-        v = flow.resolve(r.value)
-        if isinstance(v, ast.Attribute) and v.attr == 'convention':
-            g = enclosing_ifs(acc, r)
-            ok_bound = any(inb and norm_text(st.test) == f"{norm_text(v)} is not None" for st, inb in g)
-            sv = flow.resolve(v.value)
-            ok_bound = ok_bound and isinstance(sv, ast.Call) and norm_text(sv.func) == 'State.get' \
-                and flow.canon(sv.args[0]) == ('param', acc.params[0])
-        elif isinstance(v, ast.Call):
-            # the constructed convention
-            binds = [c for c in method_calls(acc, 'bind')]
-            ok_new = (len(binds) == 1 and flow.resolve(binds[0].func.value) is v and len(v.args) == 1
-                      and flow.canon(v.args[0]) == ('param', acc.params[0]))
-            gdc = [c for c in calls_in(acc) if (callee(ctx, acc, c) or '').endswith('get_dataset_convention')]
-            ok_new = ok_new and len(gdc) == 1 and flow.resolve(v.func) is gdc[0] and flow.canon(gdc[0].args[0]) == ('param', acc.params[0])
-            if ok_new:
-                st_b = stmt_of(acc, binds[0])
-                ok_new = ctx.cfg(acc).dominates(st_b, r)
-    ctx.check('R11.4', ok_bound, "the accessor returns state.convention when it is set", acc, acc.node, construct='if state.convention is not None: return state.convention')
-    ctx.check('R11.4', ok_new, "otherwise it constructs the detected convention for this dataset, binds it, and returns that same object", acc, acc.node,
-              construct='convention = convention_class(dataset); convention.bind(); return convention')
-    raises = [n for n in walk_no_nested(acc.node) if isinstance(n, ast.Raise)]
-    ok_r = any(any(inb and isinstance(st.test, ast.Compare) and isinstance(st.test.ops[0], ast.Is) and is_none(st.test.comparators[0])
-                   for st, inb in enclosing_ifs(acc, rs)) for rs in raises)
-    ctx.check('R11.4', ok_r, "a dataset nothing matches is refused with an error", acc, raises[0] if raises else acc.node,
-              construct='if convention_class is None: raise')
-    # registration of the state accessor: exactly one place
-    uses = []
-    for mod in p.modules.values():
-        for n in ast.walk(mod.tree):
-            if isinstance(n, ast.Call) and (dotted(n.func) or '').endswith('register_dataset_accessor') and n.args \
-                    and norm_text(n.args[0]) in ('State.accessor_name', "'_emsarray_state'", '"_emsarray_state"'):
-                uses.append(mod.name)
-    ctx.check('R11.4', uses == ['emsarray.accessors'], "the state accessor is registered once", acc, acc.node, construct=f"register_dataset_accessor(State.accessor_name) in {uses}")
+    with ctx.section('R11.4 typestate'):
+        state = p.cls(STATE)
+        writers = []
+        for fi in p.functions.values():
+            for node in ast.walk(fi.node):
+                if isinstance(node, ast.Attribute) and isinstance(node.ctx, (ast.Store, ast.Del)) and node.attr == 'convention':
+                    if fi.parent is not None and (fi.parent.qualname, id(node)) in {(w[0].qualname, id(w[1])) for w in writers}:
+                        continue
+                    # receivers known to be some other class (Transect.convention) are not the binding state
+                    rt = ctx.types(fi).type_of(node.value)
+                    if rt is not None and rt in p.classes and not p.is_subclass(p.classes[rt], STATE):
+                        continue
+                    writers.append((fi, node))
+                if isinstance(node, ast.Call) and dotted(node.func) in ('setattr', 'object.__setattr__') and len(node.args) >= 2 \
+                        and const_value(node.args[1], None) == 'convention':
+                    writers.append((fi, node))
+        uniq = {(f.qualname.split('.<locals>')[0], getattr(n, 'lineno', 0)) for f, n in writers}
+        ok_w = uniq and all(q == f"{STATE}.bind_convention" for q, _ in uniq) and len(uniq) == 1
+        ctx.check('R11.4', bool(ok_w), "the only store to <state>.convention is in State.bind_convention", writers[0][0] if writers else None,
+                  writers[0][1] if writers else None, construct=f"writers of .convention: {sorted(q for q, _ in uniq)}")
+        bc = ctx.func(f"{STATE}.bind_convention")
+        flow = ctx.flow(bc)
+        stores = [n for n in walk_no_nested(bc.node) if isinstance(n, ast.Assign) and norm_text(n.targets[0]) == 'self.convention']
+        ctx.check('R11.4', len(stores) == 1 and flow.canon(stores[0].value) == ('param', bc.params[1]), "bind_convention stores the convention it is given", bc,
+                  stores[0] if stores else bc.node)
+        ib = ctx.func(f"{STATE}.is_bound")
+        ok = all(norm_text(r.value) == 'self.convention is not None' for r in ib.returns()) and ib.returns()
+        ctx.check('R11.4', bool(ok), "is_bound is `self.convention is not None`", ib, ib.node)
+        default = state.attrs.get('convention')
+        ctx.check('R11.4', default is not None and is_none(default), "a new State starts unbound", bc, state.node, construct=f"State.convention default = {norm_text(default) if default is not None else 'missing'}")
+        callers = [(f, s) for f, s in cg.callers_of(f"{STATE}.bind_convention")]
+        also = [(f, n) for f in p.functions.values() for n in ast.walk(f.node)
+                if isinstance(n, ast.Call) and isinstance(n.func, ast.Attribute) and n.func.attr == 'bind_convention']
+        names = sorted({f.qualname for f, _ in also})
+        ctx.check('R11.4', names == [f"{BASE}.bind"], "bind_convention is called only from Convention.bind", also[0][0] if also else None,
+                  also[0][1] if also else None, construct=f"callers of bind_convention: {names}")
+        bind = ctx.func(f"{BASE}.bind")
+        flow = ctx.flow(bind)
+        cfg = ctx.cfg(bind)
+        from ..cfg import stmt_of
+        bcalls = [c for c in method_calls(bind, 'bind_convention')]
+        ctx.need('R11.4', len(bcalls) == 1, "Convention.bind calls bind_convention once", bind)
+        bcall = bcalls[0]
+        st_call = stmt_of(bind, bcall)
+        guard_ok = False
+        for n in walk_no_nested(bind.node):
+            if isinstance(n, ast.If) and isinstance(n.test, ast.Call) and isinstance(n.test.func, ast.Attribute) \
+                    and n.test.func.attr == 'is_bound' and flow.canon(n.test.func.value) == flow.canon(bcall.func.value) \
+                    and n.body and all(isinstance(s, ast.Raise) for s in n.body[-1:]) and not n.orelse \
+                    and cfg.dominates(n, st_call):
+                guard_ok = True
+        ctx.check('R11.4', guard_ok, "the bind is dominated by `if state.is_bound(): raise`", bind, bcall)
+        ctx.check('R11.4', len(bcall.args) == 1 and flow.canon(bcall.args[0]) == ('param', 'self'), "the convention bound is this instance", bind, bcall)
+        sv = flow.resolve(bcall.func.value)
+        ok_state = (isinstance(sv, ast.Call) and norm_text(sv.func) == 'State.get' and len(sv.args) == 1
+                    and flow.canon(sv.args[0]) == ('attr', ('param', 'self'), 'dataset'))
+        ctx.check('R11.4', ok_state, "the state bound is the one of this convention's own dataset", bind, bcall, construct=f"state = {norm_text(sv)}")
+        sg = ctx.func(f"{STATE}.get")
+        ok = False
+        for r in sg.returns():
+            v = ctx.flow(sg).resolve(r.value)
+            while isinstance(v, ast.Call) and (dotted(v.func) or '').endswith('cast'):
+                v = v.args[1]
+            ok = (isinstance(v, ast.Call) and dotted(v.func) == 'getattr' and len(v.args) == 2
+                  and ctx.flow(sg).canon(v.args[0]) == ('param', sg.params[1]) and norm_text(v.args[1]) in ('State.accessor_name', 'cls.accessor_name'))
+        ctx.check('R11.4', ok, "State.get returns the per-dataset accessor object", sg, sg.node)
+        acc = ctx.func('emsarray.accessors.ems_accessor')
+        flow = ctx.flow(acc)
+        rets = acc.returns()
+        ok_bound = False
+        ok_new = False
+        for r in rets:
+            v = flow.resolve(r.value)
+            if isinstance(v, ast.Attribute) and v.attr == 'convention':
+                g = enclosing_ifs(acc, r)
+                ok_bound = any(inb and norm_text(st.test) == f"{norm_text(v)} is not None" for st, inb in g)
+                sv = flow.resolve(v.value)
+                ok_bound = ok_bound and isinstance(sv, ast.Call) and norm_text(sv.func) == 'State.get' \
+                    and flow.canon(sv.args[0]) == ('param', acc.params[0])
+            elif isinstance(v, ast.Call):
+                # the constructed convention
+                binds = [c for c in method_calls(acc, 'bind')]
+                ok_new = (len(binds) == 1 and flow.resolve(binds[0].func.value) is v and len(v.args) == 1
+                          and flow.canon(v.args[0]) == ('param', acc.params[0]))
+                gdc = [c for c in calls_in(acc) if (callee(ctx, acc, c) or '').endswith('get_dataset_convention')]
+                ok_new = ok_new and len(gdc) == 1 and flow.resolve(v.func) is gdc[0] and flow.canon(gdc[0].args[0]) == ('param', acc.params[0])
+                if ok_new:
+                    st_b = stmt_of(acc, binds[0])
+                    ok_new = ctx.cfg(acc).dominates(st_b, r)
+        ctx.check('R11.4', ok_bound, "the accessor returns state.convention when it is set", acc, acc.node, construct='if state.convention is not None: return state.convention')
+        ctx.check('R11.4', ok_new, "otherwise it constructs the detected convention for this dataset, binds it, and returns that same object", acc, acc.node,
+                  construct='convention = convention_class(dataset); convention.bind(); return convention')
+        raises = [n for n in walk_no_nested(acc.node) if isinstance(n, ast.Raise)]
+        ok_r = any(any(inb and isinstance(st.test, ast.Compare) and isinstance(st.test.ops[0], ast.Is) and is_none(st.test.comparators[0])
+                       for st, inb in enclosing_ifs(acc, rs)) for rs in raises)
+        ctx.check('R11.4', ok_r, "a dataset nothing matches is refused with an error", acc, raises[0] if raises else acc.node,
+                  construct='if convention_class is None: raise')
+        # registration of the state accessor: exactly one place
+        uses = []
+        for mod in p.modules.values():
+            for n in ast.walk(mod.tree):
+                if isinstance(n, ast.Call) and (dotted(n.func) or '').endswith('register_dataset_accessor') and n.args \
+                        and norm_text(n.args[0]) in ('State.accessor_name', "'_emsarray_state'", '"_emsarray_state"'):
+                    uses.append(mod.name)
+        ctx.check('R11.4', uses == ['emsarray.accessors'], "the state accessor is registered once", acc, acc.node, construct=f"register_dataset_accessor(State.accessor_name) in {uses}")
+
 
 
 # --------------------------------------------------------------------------- checker self-test
